@@ -101,10 +101,15 @@ func c03Alphabet(tier string) []seqSym {
 		fill.Model = append(fill.Model, []string{"SET", "k1", fmt.Sprintf("f%02d", i), "POINT", "1", fmt.Sprint(i)})
 	}
 	a = append(a, fill, seqSym{Name: "AOFSHRINK", Args: []string{"AOFSHRINK"}, Model: [][]string{}})
+	// a channel whose filter names a loaded script by its sha (SCRIPT LOAD first, then SETCHAN ... WHEREEVALSHA)
+	shaChan := []string{"SETCHAN", "chsha", "WITHIN", "k9", "WHEREEVALSHA", Sha1Sum(c03FilterScript), "0", "FENCE", "BOUNDS", "50", "50", "51", "51"}
+	a = append(a, seqSym{Name: "@SHACHAN SCRIPT LOAD + SETCHAN chsha ... WHEREEVALSHA", Args: append([]string{"@SHACHAN"}, shaChan...), Model: [][]string{shaChan}})
 	return a
 }
 
 // c03Apply performs one symbol on the live server.
+const c03FilterScript = "return FIELDS.speed ~= nil and FIELDS.speed > 10"
+
 func c03Apply(c *Cli, sym seqSym) rv {
 	if sym.Args[0] == "@ADVANCE" {
 		sec, _ := strconv.ParseFloat(sym.Args[1], 64)
@@ -118,6 +123,10 @@ func c03Apply(c *Cli, sym seqSym) rv {
 			last = c.Do(cmd...)
 		}
 		return last
+	}
+	if sym.Args[0] == "@SHACHAN" {
+		c.Do("SCRIPT", "LOAD", c03FilterScript)
+		return c.Do(sym.Args[1:]...)
 	}
 	if sym.Args[0] == "AOFSHRINK" {
 		r := c.Do("AOFSHRINK")
